@@ -30,7 +30,7 @@ struct C14Obj : public Server::Timer::ICallback, public Server::Client::ICallbac
 };
 
 struct C14Script { int id, k; char* acts; };
-struct C14Entry { bool intr; int ids[16]; int nids; long dt; };
+struct C14Entry { bool intr; int ids[16]; bool forced[16]; int nids; long dt; };
 
 static Server* c14Srv = 0;
 static C14Obj* c14Objs[C14_MAXOBJ];
@@ -332,8 +332,14 @@ static int c14Wait(int epfd, struct epoll_event* ev, int max, int timeout)
     if(dup) continue;
     C14Obj* o = c14ById(e.ids[j]);
     if(!o || !o->alive || o->fd < 0 || o->fd >= IP_MAXFD || ipMask[o->fd] < 0) continue;
+    bool found = false;
     for(int i = 0; i < n; ++i)
-      if(tmp[i].data.ptr && tmp[i].data.ptr == ipPtr[o->fd]) { if(m < max) { ev[m++] = tmp[i]; ++nsock; } break; }
+      if(tmp[i].data.ptr && tmp[i].data.ptr == ipPtr[o->fd]) { if(m < max) { ev[m++] = tmp[i]; ++nsock; } found = true; break; }
+    if(!found && e.forced[j] && o->kind == C14_LISTENER && m < max)
+    { // spurious readiness of a listener with an empty accept queue: the accept4 that follows fails
+      ev[m].events = EPOLLIN; ev[m].data.ptr = ipPtr[o->fd]; ++m; ++nsock;
+      if(o->fd < 4096) ipFailAccept[o->fd] = true;
+    }
   }
   if(nsock == 0 && !efd)
   {
@@ -452,7 +458,11 @@ static bool c14ParseEntry(const char* t, C14Entry& e)
     char* c = strchr(p, ',');
     if(c) *c = 0;
     long v;
+    bool forced = false;
+    size_t pl = strlen(p);
+    if(pl && p[pl - 1] == '!') { forced = true; p[pl - 1] = 0; }
     if(!c14Num(p, v) || e.nids >= 16) return false;
+    e.forced[e.nids] = forced;
     e.ids[e.nids++] = (int)v;
     p = c ? c + 1 : 0;
   }
@@ -464,7 +474,8 @@ static bool c14Op(HxLine& l)
   const char* op = l.tok[0];
   bool known = !strcmp(op, "script") || !strcmp(op, "act") || !strcmp(op, "mkpair") || !strcmp(op, "mklisten") ||
                !strcmp(op, "mkconn") || !strcmp(op, "psend") || !strcmp(op, "pclose") || !strcmp(op, "dial") ||
-               !strcmp(op, "adv") || !strcmp(op, "run") || !strcmp(op, "cfail") || !strcmp(op, "runmt");
+               !strcmp(op, "adv") || !strcmp(op, "run") || !strcmp(op, "cfail") || !strcmp(op, "runmt") ||
+               !strcmp(op, "clear") || !strcmp(op, "failmk") || !strcmp(op, "opt");
   if(!known) return false;
   if(!c14Srv) c14Setup();
   c14Callbacks = 0;
@@ -474,6 +485,42 @@ static bool c14Op(HxLine& l)
     if(!c14Num(l.tok[1], a) || !c14Num(l.tok[2], b) || !c14ValidActs(l.tok[3]) || c14NScripts >= C14_MAXSCRIPT) { printf("bad-op"); hxEndLine(); return true; }
     c14Scripts[c14NScripts].id = (int)a; c14Scripts[c14NScripts].k = (int)b; c14Scripts[c14NScripts].acts = strdup(l.tok[3]);
     ++c14NScripts;
+    c14Observe("ok");
+    return true;
+  }
+  if(hxIs(l, "clear", 0))
+  { // Server::clear() outside run(): every object is destroyed, no callback may follow
+    ipMaskReset();
+    ipNFailConnect = 0;
+    c14Srv->clear();
+    for(int i = 0; i < c14NObjs; ++i) c14Objs[i]->alive = false;
+    c14Observe("ok");
+    return true;
+  }
+  if(hxIs(l, "failmk", 1))
+  { // pair / listen / connect whose socket()/socketpair() fails: a null result and no trace in the server
+    void* r = (void*)1;
+    Socket other;
+    C14Obj cb;
+    ipFailNextSocket = true;
+    if(!strcmp(l.tok[1], "pair")) r = c14Srv->pair(cb, other);
+    else if(!strcmp(l.tok[1], "listen")) r = c14Srv->listen(Socket::loopbackAddress, 0, cb);
+    else if(!strcmp(l.tok[1], "connect")) r = c14Srv->connect(Socket::loopbackAddress, 1, cb);
+    else { ipFailNextSocket = false; printf("bad-op"); hxEndLine(); return true; }
+    if(ipFailNextSocket) { ipFailNextSocket = false; ipFail("the library did not call socket()/socketpair()"); }
+    if(r) ipFail("creation succeeded although socket() failed");
+    if(other.s != -1) ipFail("pair() left the other socket open");
+    c14Observe("ok");
+    return true;
+  }
+  if(hxIs(l, "opt", 2))
+  { // socket options of the server: applied to sockets created later; no effect on the event loop
+    if(!c14Num(l.tok[2], a)) { printf("bad-op"); hxEndLine(); return true; }
+    if(!strcmp(l.tok[1], "keepalive")) c14Srv->setKeepAlive(a != 0);
+    else if(!strcmp(l.tok[1], "sndbuf")) c14Srv->setSendBufferSize((int)a);
+    else if(!strcmp(l.tok[1], "rcvbuf")) c14Srv->setReceiveBufferSize((int)a);
+    else if(!strcmp(l.tok[1], "reuse")) c14Srv->setReuseAddress(a != 0);
+    else { printf("bad-op"); hxEndLine(); return true; }
     c14Observe("ok");
     return true;
   }
